@@ -54,7 +54,7 @@ def generate(seed, tier):
         else:
             ops.append({"op": "sleep", "s": r.choice((0.0, 1.0, 11.0))})
     return {"ops": ops, "line_level": r.random() < 0.5, "two_threads": r.random() < 0.4,
-            "knobs": common.draw_knobs(r, stall_p=0.0)}
+            "knobs": common.race_knobs(r, stall_p=0.0)}
 
 
 def shrink_candidates(s):
